@@ -47,6 +47,90 @@ fn base_row(addr: u32) -> Snap {
     s
 }
 
+/// DENSE tables: n rows whose key values form a chain of close neighbours (spacing well below what is
+/// displayed, and duplicates), assigned to the addresses in a scrambled order. A comparison that treats near
+/// values as equal is not a total order; sorting such a table must still terminate, list every aircraft once
+/// and be monotone in the exact key.
+pub fn dense_table(letter: char, n: usize, variant: usize) -> Vec<Snap> {
+    let f = field_of(letter);
+    let step = [7usize, 11, 13, 17, 19, 23, 29, 31][variant % 8];
+    let delta = [0.03f64, 0.0001, 0.4, 1e-9][(variant / 8) % 4];
+    (0..n)
+        .map(|i| {
+            let mut r = base_row(0x400000 + i as u32 * 0x101);
+            let rank = (i * step + variant) % n; // position of this row in the chain
+            let dup = rank / 2 * 2; // every value twice when the variant is odd
+            let x = if variant % 2 == 1 { dup } else { rank } as f64;
+            match f {
+                "squawk" => r.squawk = Some(1000 + (x as u32) % 7000),
+                "altitude" => r.altitude = Some(10_000 + 25 * x as u32),
+                "vrate" => r.vrate = Some(-640 + 64 * x as i32),
+                "lat" => {
+                    r.lat = (10.2 + delta * x).to_bits();
+                    r.lon = 7.5f64.to_bits();
+                }
+                "lon" => {
+                    r.lon = (10.2 + delta * x).to_bits();
+                    r.lat = 47.5f64.to_bits();
+                }
+                "dist" => r.dist = Some((10.2 + delta * x).to_bits()),
+                "category" => r.category = (1 + (x as u32 / 8) % 4, x as u32 % 8),
+                _ => {}
+            }
+            r
+        })
+        .collect()
+}
+
+/// print a dense table; Err(message) when printing panics
+pub fn print_dense(letter: char, n: usize, variant: usize) -> Result<(Vec<Snap>, Vec<u32>), String> {
+    let rows = dense_table(letter, n, variant);
+    let argv: Vec<String> = vec!["squitterator".into(), "-i".into(), "".into(), "-o".into(), letter.to_string()];
+    let args = Args::try_parse_from(&argv).expect("args");
+    let flags = DisplayFlags::from_arg_str("");
+    let planes = Planes { aircrafts: restore(&rows) };
+    let (r, out) = capture_stdout(|| std::panic::catch_unwind(std::panic::AssertUnwindSafe(|| planes.print(&args, &flags))));
+    if r.is_err() {
+        return Err("printing the table panicked".into());
+    }
+    let txt = String::from_utf8_lossy(&out);
+    Ok((rows, txt.lines().filter_map(|l| u32::from_str_radix(l.get(0..6)?, 16).ok()).collect()))
+}
+
+pub const DENSE_NS: [usize; 5] = [21, 24, 32, 50, 64];
+
+fn check_dense(ctx: &mut Ctx, letter: char, n: usize, variant: usize) {
+    ctx.eval();
+    ctx.count("dense-table");
+    let key = format!("-o {letter} dense n={n} variant={variant}");
+    let case = || json!({"dense": {"letter": letter.to_string(), "n": n, "variant": variant}});
+    match print_dense(letter, n, variant) {
+        Err(e) => ctx.violation("C15/print-panicked", &key, || format!("{key}: {e}"), case),
+        Ok((rows, printed)) => {
+            let mut sorted = printed.clone();
+            sorted.sort();
+            let mut want: Vec<u32> = rows.iter().map(|r| r.key).collect();
+            want.sort();
+            if sorted != want {
+                ctx.violation("C15/permutation", &key, || format!("{key}: {} rows printed for a table of {}", printed.len(), rows.len()), case);
+                return;
+            }
+            let f = field_of(letter);
+            let vals: Vec<f64> = printed.iter().filter_map(|a| rows.iter().find(|r| r.key == *a)).filter_map(|r| match key_of(r, f) { K::Val(v) => Some(v), K::Blank => None }).collect();
+            let asc = vals.windows(2).all(|w| w[0] <= w[1]);
+            let desc = vals.windows(2).all(|w| w[0] >= w[1]);
+            let ok = match letter {
+                's' | 'a' => asc,
+                'A' => desc,
+                _ => asc || desc,
+            };
+            if !ok {
+                ctx.violation(&format!("C15/order/{letter}"), &key, || format!("{key}: key '{letter}' ({f}) is not monotone down the table: {:?} ...", &vals[..vals.len().min(8)]), case);
+            }
+        }
+    }
+}
+
 fn field_of(letter: char) -> &'static str {
     match letter {
         's' => "squawk",
@@ -359,6 +443,18 @@ fn run(ctx: &mut Ctx) {
             }
         }
     }
+    // dense tables (chains of close neighbours and duplicates, 21..64 rows, scrambled address order)
+    for letter in KEYS {
+        for n in DENSE_NS {
+            job += 1;
+            if !ctx.mine(job) {
+                continue;
+            }
+            for variant in 0..32usize {
+                check_dense(ctx, letter, n, variant);
+            }
+        }
+    }
     ctx.sample(|| json!({"o": "d", "distances": [10.9, 10.2, null], "expected": "10.2 and 10.9 in monotone order, the blank row anywhere"}));
     ctx.sample(|| json!({"o strings": os.iter().take(20).collect::<Vec<_>>()}));
     ctx.bound("-o strings", os.len());
@@ -367,6 +463,14 @@ fn run(ctx: &mut Ctx) {
 }
 
 fn replay(ctx: &mut Ctx, case: &Value) {
+    if let Some(d) = case.get("dense") {
+        let letter = d.get("letter").and_then(|x| x.as_str()).and_then(|s| s.chars().next()).unwrap_or('d');
+        let n = d.get("n").and_then(|x| x.as_u64()).unwrap_or(24) as usize;
+        let variant = d.get("variant").and_then(|x| x.as_u64()).unwrap_or(0) as usize;
+        crate::run::say(&format!("dense table: {n} rows, key '{letter}', variant {variant}"));
+        check_dense(ctx, letter, n, variant);
+        return;
+    }
     if case.get("refresh").is_some() {
         let opts: Vec<String> = case.get("opts").and_then(|c| c.as_array()).map(|a| a.iter().filter_map(|x| x.as_str().map(String::from)).collect()).unwrap_or_default();
         let o: Vec<&str> = opts.iter().map(|s| s.as_str()).collect();
